@@ -238,13 +238,148 @@ def real_axioms():
     ]
 
 
+def tobytes(ex, st, arr: VSeq):
+    """native byte image of an array (what tofile()/bytes() write): identity for byte arrays, 4 little-endian
+    two's-complement bytes per cell for 'I'/'i' arrays"""
+    if arr.kind in ("array:B", "bytes", "mmap"):
+        return VSeq(arr.comps, arr.ln, TInt(0, 255), "bytes")
+    if arr.kind in ("array:I", "array:i"):
+        ex.lib_used.add("array('I'/'i').tofile / bytes(): 4 little-endian bytes per cell (two's complement for 'i'), "
+                        "x86-64; array(tc, bytes) is the inverse")
+        a = arr.comps[0]
+        j = z3.Int("tb%j")
+        cell = a[j / 4]
+        enc = z3.If(cell < 0, cell + 2 ** 32, cell)
+        k = j % 4
+        byte = z3.If(k == 0, digit(enc, 0), z3.If(k == 1, digit(enc, 1), z3.If(k == 2, digit(enc, 2), digit(enc, 3))))
+        return VSeq([z3.Lambda([j], byte)], arr.ln * 4, TInt(0, 255), "bytes")
+    raise Unsupported(f"byte image of {arr.kind}")
+
+
+def frombytes(ex, st, tc, b: VSeq, line):
+    """array(tc, bytes)"""
+    if tc == "B":
+        return VSeq(b.comps, b.ln, TInt(0, 255), "array:B")
+    if tc in ("I", "i"):
+        ex.lib_used.add("array('I'/'i', bytes): cell c = little-endian integer of bytes 4c..4c+3")
+        ex.oblige(st, f"L{line}.array_from_bytes_multiple_of_item_size", b.ln % 4 == 0)
+        c = z3.Int("fb%c")
+        raw = le_uint(b.comps[0], 4 * c, 4)
+        val = z3.If(raw >= 2 ** 31, raw - 2 ** 32, raw) if tc == "i" else raw
+        from .values import parse_type
+        t = parse_type("array:" + tc)
+        return VSeq([z3.Lambda([c], val)], b.ln / 4, t.elem, t.kind)
+    raise Unsupported(f"array({tc!r}, bytes)")
+
+
+def stream_content(st, s):
+    if s.sid not in st.streams:
+        raise Unsupported("unknown stream")
+    return st.streams[s.sid]
+
+
+def stream_append(ex, st, s, data: VSeq):
+    cur = stream_content(st, s)
+    st.streams[s.sid] = ex.seq_concat(st, cur, data)
+    st.nwrites[0] += 1
+    if st.writelog is not None:
+        st.writelog.append((("stream", s.sid), ("stream", s.sid), True))
+
+
 def stream_method(ex, st, recv, name, args, node):
-    raise Unsupported(f"stream.{name} (stream model)")
+    if name == "write":
+        data = args[0]
+        if not isinstance(data, VSeq):
+            raise Unsupported("write of a non-bytes value")
+        ex.lib_used.add("file.write(b) / array.tofile(f) on a stream opened for writing: appends the bytes")
+        stream_append(ex, st, recv, tobytes(ex, st, data))
+        return VInt(data.ln)
+    if name == "getvalue":
+        c = stream_content(st, recv)
+        return VSeq(c.comps, c.ln, c.et, "bytes")
+    if name in ("flush", "close"):
+        from .values import VNone
+        return VNone()
+    raise Unsupported(f"stream.{name}")
 
 
 def seq_io_method(ex, st, recv, name, args, node):
+    from .values import VStream, VNone
+    if name == "tofile" and len(args) == 1 and isinstance(args[0], VStream):
+        ex.lib_used.add("file.write(b) / array.tofile(f) on a stream opened for writing: appends the bytes")
+        stream_append(ex, st, args[0], tobytes(ex, st, recv))
+        return VNone()
+    if name == "tobytes":
+        return tobytes(ex, st, recv)
     raise Unsupported(f"sequence method {name}")
 
 
 def exec_with(ex, s, st):
-    raise Unsupported("with-statement (stream model)")
+    """with BytesIO() as f / with open(path, 'wb') as f / with MMap(path) as f"""
+    import ast
+    from .values import VStream, VBuiltin
+    if len(s.items) != 1 or s.items[0].optional_vars is None or not isinstance(s.items[0].optional_vars, ast.Name):
+        raise Unsupported("with-statement shape")
+    ctx = s.items[0].context_expr
+    var = s.items[0].optional_vars.id
+    if not isinstance(ctx, ast.Call):
+        raise Unsupported("with-statement context")
+    fname = ctx.func.id if isinstance(ctx.func, ast.Name) else getattr(ctx.func, "attr", "")
+    if fname == "BytesIO" and not ctx.args:
+        sid = st.new_oid()
+        st.streams[sid] = VSeq([z3.K(z3.IntSort(), z3.IntVal(0))], z3.IntVal(0), TInt(0, 255), "bytes")
+        st.env[var] = VStream(sid)
+        ex.lib_used.add("io.BytesIO(): an empty in-memory stream; getvalue() returns the bytes written")
+        return ex.exec_block(s.body, st)
+    if fname == "open" and len(ctx.args) >= 2:
+        mode = ex.eval(ctx.args[1], st)
+        path = ex.eval(ctx.args[0], st)
+        if isinstance(mode, VStr) and mode.lit == "wb" and isinstance(path, VStr):
+            ex.lib_used.add("open(path, 'wb'): a new empty file object; at the end of the with-block the bytes written "
+                            "are the content of the file at that (resolved) path")
+            sid = st.new_oid()
+            st.streams[sid] = VSeq([z3.K(z3.IntSort(), z3.IntVal(0))], z3.IntVal(0), TInt(0, 255), "bytes")
+            st.env[var] = VStream(sid)
+            outs = ex.exec_block(s.body, st)
+            res = []
+            for cur, status in outs:
+                fs_store(ex, cur, path, cur.streams[sid])
+                res.append((cur, status))
+            return res
+        raise Unsupported("open() mode")
+    if fname == "MMap" and len(ctx.args) == 1:
+        path = ex.eval(ctx.args[0], st)
+        if not isinstance(path, VStr):
+            raise Unsupported("MMap of a non-path")
+        ex.lib_used.add("MMap(path): read-only view of the bytes of the file at that path")
+        c = fs_load(ex, st, path)
+        st.env[var] = VSeq(c.comps, c.ln, TInt(0, 255), "mmap")
+        return ex.exec_block(s.body, st)
+    raise Unsupported(f"with {fname}(...)")
+
+
+FS_DATA = z3.Array("fs_data!0", z3.IntSort(), z3.ArraySort(z3.IntSort(), z3.IntSort()))
+FS_LEN = z3.Array("fs_len!0", z3.IntSort(), z3.IntSort())
+FS_EXISTS = z3.Array("fs_exists!0", z3.IntSort(), z3.BoolSort())
+rpath = z3.Function("resolve_path", z3.IntSort(), z3.IntSort())
+
+
+def fs_state(st):
+    if st.fs is None:
+        st.fs = (FS_DATA, FS_LEN, FS_EXISTS)
+    return st.fs
+
+
+def fs_store(ex, st, path, content):
+    d, l, e = fs_state(st)
+    st.fs = (z3.Store(d, path.t, content.comps[0]), z3.Store(l, path.t, content.ln), z3.Store(e, path.t, z3.BoolVal(True)))
+    st.nwrites[0] += 1
+
+
+def fs_load(ex, st, path):
+    d, l, e = fs_state(st)
+    ex.oblige(st, f"L{ex.cur_line}.file_exists", e[path.t])
+    v = VSeq([d[path.t]], l[path.t], TInt(0, 255), "bytes")
+    i = z3.Int(fresh_name("fsb"))
+    st.pc += [v.ln >= 0, z3.ForAll([i], z3.And(v.comps[0][i] >= 0, v.comps[0][i] <= 255), patterns=[v.comps[0][i]])]
+    return v
